@@ -1,7 +1,7 @@
 (** C01 -- No motion into and no extrusion inside an excluded region. *)
 From Coq Require Import Reals String List Bool.
 From ER Require Import Base.Num Model.Geometry Model.Axis Model.Filter Spec.Printer
-  Proofs.FilterLemmas Proofs.Transparent Proofs.Deferred Proofs.Outputs Proofs.Track Proofs.FSync Proofs.Sync Proofs.MotionProps.
+  Proofs.FilterLemmas Proofs.Transparent Proofs.Deferred Proofs.Outputs Proofs.Track Proofs.FSync Proofs.Sync Proofs.MotionProps Proofs.Depth.
 Import ListNotations.
 Open Scope R_scope.
 
@@ -52,6 +52,13 @@ Theorem C01_moves_never_pass_through : forall c (s : fstate R) (m : icmd R),
   snd (handle c s m) = Unchanged -> linear m = true -> is_arc m = true /\ arc_nondegenerate m = false.
 Proof. exact unchanged_linear. Qed.
 
+(** non-vacuity: the dialect predicates of the theorems above are met by a concrete program (print, retract, travel into
+    and out of the region area, recover, print) for any region set *)
+Theorem C01_premises_satisfiable : forall rs : list (region R),
+  wf_hist ex_cfg (mkSim (init_state rs) init_printer init_printer) ex_hist.
+Proof. intros rs. exact (proj1 (depth_premises_satisfiable rs)). Qed.
+
+
 Print Assumptions C01_forwarded_move_ends_outside.
 Print Assumptions C01_invariant.
 Print Assumptions C01_invariant_init.
@@ -59,3 +66,4 @@ Print Assumptions C01_stands_still.
 Print Assumptions C01_only_retractions_inside.
 Print Assumptions C01_opening_output.
 Print Assumptions C01_moves_never_pass_through.
+Print Assumptions C01_premises_satisfiable.
